@@ -265,6 +265,33 @@ Example ex_wrun :
   Ok (WItems [(2, ([1; 2], [3; 4; 5])); (1, ([7], [8]))] 0 [None; None], WItems [(1, ([7], [8]))] 0 [None; None], WRes (DNum 1), true).
 Proof. vm_compute. first [left; reflexivity | right; reflexivity]. Qed.
 
+(** decidable form of the headroom, for examples *)
+Fixpoint wsizedb (s : store) (ops : list wop) : bool :=
+  fits64b s && roomb s &&
+  match ops with
+  | [] => true
+  | o :: ops' => match wstore_step s o with Ok (s1, _) => wsizedb s1 ops' | _ => true end
+  end.
+
+Lemma wsizedb_ok ops : forall s, wsizedb s ops = true -> wsized s ops.
+Proof.
+  induction ops as [|o ops IH]; intros s H; cbn [wsizedb wsized] in *.
+  - apply andb_prop in H as [H _]. apply andb_prop in H as [H1 H2].
+    destruct (sizedb_ok [] s) as (A & B & _); [cbn [sizedb]; rewrite H1, H2; reflexivity|]. auto.
+  - apply andb_prop in H as [H H3]. apply andb_prop in H as [H1 H2].
+    destruct (sizedb_ok [] s) as (A & B & _); [cbn [sizedb]; rewrite H1, H2; reflexivity|].
+    split; [exact A|]. split; [exact B|].
+    intros s1 r E. rewrite E in H3. apply IH. exact H3.
+Qed.
+
+(** the hypotheses of the theorems above are satisfiable: the example history from a freshly created map *)
+Example whistory_hypotheses :
+  1 <= 4 /\ Forall (wop_wf KBytes) ex_wops /\ wsized (Store.create KBytes 4) ex_wops.
+Proof.
+  split; [lia|]. split; [repeat constructor; cbn; try lia; try discriminate|].
+  apply wsizedb_ok. vm_compute. reflexivity.
+Qed.
+
 Print Assumptions wio_run_refines.
 Print Assumptions Io_reopen_then_whistory.
 Print Assumptions wstore_run_agrees.
